@@ -61,7 +61,7 @@ PROPS = {
                  "non-trivial when some state has >= 2 morphisms with both ends; distinct = distinct fingerprints of the "
                  "sequence of (graph, verdict) states."),
         "real": RT_REAL,
-        "stub": ["the close loop that produces the splits is replaced by the arrival schedule (the model-level half of C18 is served by modelsim)"],
+        "stub": ["rtsim half: the close loop that produces the splits is replaced by the arrival schedule; modelsim half: nothing stubbed, the driver calls morphism_toposort on the model's actual six tables at every poll of seeded C17 histories"],
         "assumptions": [
             "inputs are well-formed as generated code produces them: dom and cod functional, every referenced object present in the object tables",
             "the returned sequence is not required to be independent of the split, only Ok/Err and the multiset",
@@ -207,5 +207,38 @@ PROPS = {
         "real": MS_REAL,
         "stub": ["none: compiler, rustc, runtime and generated code are the real ones; the reference (naive chase / rule checker / union-find) is the oracle, not a stub of the system"],
         "assumptions": ["std's per-process hash keys cannot be seeded from outside; a cross-process-only difference is reported with a statistical replay note"],
+    },
+    "C17": {
+        "module": "model",
+        "level": "exploration",
+        "rule": ("corpus = generated programs with one model declaration (1-2 member predicates over global types, global predicates, "
+                 "optionally named objects and a named morphism whose dom / cod are derived by rules as in subset_rules.eql; 1-4 global "
+                 "rules from 7 templates over member predicates), recompiled by the current compiler; per run a seeded history: 2-5 objects, "
+                 "an acyclic morphism graph (chains, diamonds), dom and cod asserted separately, facts, carrier equalities, in the orders "
+                 "structure-first / facts-first / mixed with close() and cancelled close_until in between; after the final close: (1) the "
+                 "naive rule check incl. the implicit inheritance rules, (2) isomorphism with a reference chase extended by inheritance, "
+                 "(3) isomorphism with the model built by asserting everything at once. Classes carry /late-structure or /early-structure "
+                 "according to whether structure could arrive after a fact aged. Non-trivial = all three oracles ran; distinct = distinct "
+                 "final dumps per program."),
+        "real": MS_REAL,
+        "stub": ["none"],
+        "assumptions": ["no member types / member functions (member predicates over global types only)",
+                        "objects and morphisms are never equated (cycles are C18's business)"],
+    },
+    "C19": {
+        "module": "build",
+        "level": "exploration",
+        "rule": ("text half (buildsim): every theory (buildsim families, the repository's test theories) is built in both build types by "
+                 "the real eqlog::process; the imported link names must equal the exported no_mangle functions, every ...Env struct must be "
+                 "token-identical in the module and in its component, every component source must occur verbatim in the single-file module "
+                 "and the single-file module minus its embedded rule modules must equal the module of the component build. Dynamic half "
+                 "(modelsim): the first programs of the generated corpus are built twice -- as single modules and through the component "
+                 "path (real rayon, real rustc per rule component, rlibs linked through cargo link directives) -- and the same seeded API "
+                 "histories are run against both binaries; the transcripts (every return value, every iterator output, ids included) "
+                 "must be identical. Non-trivial = a theory with >= 1 component / a history with >= 1 close; distinct = distinct component "
+                 "trees plus distinct transcripts."),
+        "real": ["eqlog::process in both build types; for the dynamic half real rustc and real rayon (no simulator installed), real eqlog-runtime"],
+        "stub": ["text half only: stub rustc (the sources are what is compared)"],
+        "assumptions": ["the component libraries are linked by a generated build script that prints the same cargo link directives eqlog prints, not through eqlog::process_root (which needs cargo's build-script environment)"],
     },
 }
